@@ -18,7 +18,7 @@ import (
 	"verifharness/gal"
 )
 
-const header = "From CSS Require Import Lib.Base Lib.Cases Model.Manifest Model.ManifestCases."
+const header = "From CSS Require Import Lib.Base Lib.Cases Model.Manifest Model.ManifestCases.\nFrom Coq Require Import Init.Byte."
 
 // finding ids (KNOWN_FINDINGS.json)
 const (
@@ -131,7 +131,9 @@ func (r *run) addVerifyCase(kind string, doc int, file []byte, descr map[string]
 		r.c.Count("verify/oversized-reserialisation-not-shipped")
 		return out, -1
 	}
-	lit := fmt.Sprintf("CVerifyFile %d %s %s %s %s", doc, gal.Bytes(file), optPman(pp), vtLit(vt), obsUnit(out))
+	pl := &pool{}
+	fileRef := pl.ref(file)
+	lit := pl.wrap(fmt.Sprintf("CVerifyFile %d %s %s %s %s", doc, fileRef, optPman(pp, pl), vtLit(vt, pl), obsUnit(out)))
 	idx := r.c.Add(kind, lit, descr, nontrivial)
 	return out, idx
 }
@@ -142,15 +144,22 @@ func (r *run) signOne(b *bootguard.BootGuard, doc int, scheme, hashName, keyName
 	key := r.keys[keyName]
 	gen := genOf(b)
 	desc["scheme"], desc["hash"], desc["key"], desc["keybits"] = scheme, hashName, keyName, key.N.BitLen()
-	// what SignKM/SignBPM serialise first (prep): BPM signature element reset
+	// what SignKM/SignBPM are to serialise first: the manifest with an EMPTY signature
+	// element.  Computed on a copy, so that a signed BPM object that is signed again
+	// reaches the code under test as it is (old key and signature still in place).
+	pb := b
 	if doc == 1 {
 		if gen == 1 {
-			b.VData.BGbpm.PMSE = *bgbootpolicy.NewSignature()
+			m2 := *b.VData.BGbpm
+			m2.PMSE = *bgbootpolicy.NewSignature()
+			pb = &bootguard.BootGuard{Version: b.Version, VData: bootguard.VersionedData{BGbpm: &m2}}
 		} else {
-			b.VData.CBNTbpm.PMSE = *cbntbootpolicy.NewSignature()
+			m2 := *b.VData.CBNTbpm
+			m2.PMSE = *cbntbootpolicy.NewSignature()
+			pb = &bootguard.BootGuard{Version: b.Version, VData: bootguard.VersionedData{CBNTbpm: &m2}}
 		}
 	}
-	pre, err := pmanOf(b, doc)
+	pre, err := pmanOf(pb, doc)
 	if err != nil {
 		c.OracleFail(-1, "cannot serialise the constructed manifest: "+err.Error(), "harness", desc)
 		return nil
@@ -234,7 +243,7 @@ func (p pman) pkhashNullKM(doc int) bool {
 func main() {
 	log.SetOutput(os.Stderr)
 	log.SetLevel(log.PanicLevel) // the default: branches log an error per call
-	c := gal.New("C18", header, 40)
+	c := gal.New("C18", header, 60)
 	defer func() {
 		if rec := recover(); rec != nil {
 			fmt.Println("harness panic:", rec)
@@ -250,13 +259,14 @@ func main() {
 	r.artifacts()
 	r.sweeps()
 	r.binding()
+	r.lifecycles()
 	r.passwords()
 	r.detectAndStruct()
 
 	c.Rep.Extra["known_finding_hits"] = r.known
 	c.Rep.Extra["seconds"] = time.Since(t0).Seconds()
 	c.Finish("BG 1.0 and CBnT 2.0 KM/BPM built with fiano constructors + bootguard.NewVData/GetBPMPubHash (random SVN/ID/revision/flags, 0-4 KM hashes, 0-6 IBB segments, 1-3 digests, optional TXT/PCD/PM/reserved elements), signed by SignKM/SignBPM with RSA-2048 (thorough: and 3072) x {RSASSA,RSAPSS} x {SHA256,SHA384,(SHA1,SM3,AlgNull)} and verified by NewKM/NewBPM+VerifyKM/VerifyBPM; " +
-		"single-bit mutants of signed files (quick: all bits of 3 files per kind, stride elsewhere; thorough: all bits of every file); KM x BPM key pairs for KMHasBPMHash/BPMKeyMatchKMHash; 13x13 password pairs, bit flips and truncations of the wrapped key; DetectBGV and unknown-Version cases. " +
+		"single-bit mutants of signed files (quick: all bits of 3 files per kind, stride elsewhere; thorough: all bits of every file); KM x BPM key pairs for KMHasBPMHash/BPMKeyMatchKMHash; life cycles of ONE manifest object (KM: fresh / without hash / parsed from a signed file / written and read back / the shipped artifact, then 3-8 steps of GetBPMPubHash with another key or algorithm, failing GetBPMPubHash calls (unknown name, non-hash name, ed25519 key), SignKM, WriteKM+NewKM, KMSVN change, ending with SignKM; BPM: signed, re-read, BPMSVN change, signed again with another key/scheme) with the binding check on the structures after every GetBPMPubHash and through NewBPMAndKM on the files after every signing, judged against the LAST key placed / LAST signer, plus Verify on the object and on its written file after every change; 13x13 password pairs, bit flips and truncations of the wrapped key; DetectBGV and unknown-Version cases. " +
 		"A case is non-trivial when it reaches a signature/hash/AEAD decision; distinct = distinct Gallina literal. Sweeps are oracle checks; a sample of mutants becomes correspondence cases.")
 }
 
